@@ -634,6 +634,8 @@ func (g *fnGen) execNext(st *state, x *ssa.Next) {
 	// argument that the loop body commutes; otherwise the range is an obligation that cannot discharge.
 	if g.ct != nil && g.ct.Flags["order-insensitive"] {
 		g.assumptions["map iteration in "+g.key+" is declared order-insensitive (loop bodies commute)"] = true
+	} else if g.sortedKeyRanges[rng.Pos()] {
+		g.assumptions["map iteration in "+g.key+" only collects the keys into a slice that is sorted by sort.Strings / sort.Ints / slices.Sort right after the loop (recognised syntactically)"] = true
 	} else if !g.mapOrderSeen[rng] {
 		g.mapOrderSeen[rng] = true
 		g.oblige(st, "map-order", g.anchor(rng.Pos(), shortTypeKey(rng.X.Type())), rng.Pos(), "", "false", "iteration over a Go map: the order is randomised, so the result may differ from run to run")
